@@ -167,6 +167,7 @@ def run(chk):
         c02.run(AliasedCheck(chk, {"C02.R1": "C14.R5", "C02.R2": "C14.R5"}))
         c03.run(AliasedCheck(chk, {"C03.R1": "C14.R5", "C03.R2": "C14.R5", "C03.R5": "C14.R5"}))
         c06.quantizer_geometry(AliasedCheck(chk, {"C06.R7": "C14.R5"}))
+        c06.scalar_scale_clause(AliasedCheck(chk, {"C06.R9": "C14.R5"}))  # a non-scalar activation scale is refused (0-dim on the per-tensor path)
     from .c03 import grouping_condition
     grouping_condition(chk, "C14.R1")  # a valid group size is honoured by the optimizer and the quantizer alike
     from .c10 import derived_state
